@@ -12,6 +12,7 @@ import (
 	"encoding/json"
 	"fmt"
 	"os"
+	"strings"
 	"sync"
 	"time"
 
@@ -165,4 +166,129 @@ func freshness(r *vf.Run) {
 	r.Floor("freshness_rounds", int(r.Counter("freshness_rounds")), rounds*9/10)
 	r.Floor("freshness_overlapping_reads_that_saw_the_old_value", int(r.Counter("freshness_overlapping_reads_that_saw_the_old_value")), 5)
 	r.Floor("freshness_overlapping_reads_that_saw_the_new_value", int(r.Counter("freshness_overlapping_reads_that_saw_the_new_value")), 5)
+}
+
+// Getter phase.  An application may provide a value at read time (OnValueRemoteGet: the sensor is asked when a
+// controller asks) instead of setting it beforehand: that value is "what the application sets" just the same, for
+// characteristics a controller may write and for those it may only read.  Per round the value behind every getter
+// changes, a controller reads all of them through /characteristics and must get exactly the getter's values; the
+// /accessories document read afterwards must agree.
+func getters(r *vf.Run) {
+	rounds := r.Pick(60, 1500)
+	dir := app.ScratchDir(r.WorkDir(), "getter")
+	defer os.RemoveAll(dir)
+	rnd := r.Rand("c09-getter")
+	me := refctl.NewIdentity("c09-getter", rnd)
+	app.StoreController(dir, me)
+	th := accessory.NewTemperatureSensor(accessory.Info{Name: "sensor"}, 20, -50, 150, 0.1)
+	bulb := accessory.NewColoredLightbulb(accessory.Info{Name: "bulb"})
+	sw := accessory.NewSwitch(accessory.Info{Name: "switch"})
+	var mu sync.Mutex
+	temp, bright, on, name := 20.0, 50, false, "n0"
+	th.TempSensor.CurrentTemperature.OnValueRemoteGet(func() float64 { mu.Lock(); defer mu.Unlock(); return temp }) // pr ev
+	bulb.Lightbulb.Brightness.OnValueRemoteGet(func() int { mu.Lock(); defer mu.Unlock(); return bright })          // pr pw ev
+	sw.Switch.On.OnValueRemoteGet(func() bool { mu.Lock(); defer mu.Unlock(); return on })                          // pr pw ev
+	sw.Info.SerialNumber.OnValueRemoteGet(func() string { mu.Lock(); defer mu.Unlock(); return name })              // pr
+	a, err := app.Start(dir, "00102003", th.Accessory, bulb.Accessory, sw.Accessory)
+	if err != nil {
+		r.Inconclusive("getters: transport: " + err.Error())
+		return
+	}
+	defer a.Stop()
+	acc, _ := app.AccessoryEntity(dir)
+	c, err := a.Verified(me, acc.PublicKey, acc.Name)
+	if err != nil {
+		r.Inconclusive("getters: pair-verify: " + err.Error())
+		return
+	}
+	defer c.Close()
+	c.Timeout = 20 * time.Second
+	type tgt struct {
+		aid, iid uint64
+		what     string
+		want     func() string
+	}
+	js := func(v interface{}) string { b, _ := json.Marshal(v); return string(b) }
+	ts := []tgt{
+		{th.Accessory.ID, th.TempSensor.CurrentTemperature.ID, "CurrentTemperature (perms pr ev)", func() string { return js(temp) }},
+		{bulb.Accessory.ID, bulb.Lightbulb.Brightness.ID, "Brightness (perms pr pw ev)", func() string { return js(bright) }},
+		{sw.Accessory.ID, sw.Switch.On.ID, "On (perms pr pw ev)", func() string { return js(on) }},
+		{sw.Accessory.ID, sw.Info.SerialNumber.ID, "SerialNumber (perms pr)", func() string { return js(name) }},
+	}
+	var ids [][2]uint64
+	for _, t := range ts {
+		ids = append(ids, [2]uint64{t.aid, t.iid})
+	}
+	for round := 0; round < rounds; round++ {
+		mu.Lock()
+		temp = float64(rnd.Intn(2000)-500) / 10
+		bright = rnd.Intn(101)
+		on = !on
+		name = fmt.Sprintf("n%d", rnd.Intn(1e6))
+		mu.Unlock()
+		m, err := c.Do("GET", "/characteristics?id="+refctl.IDList(ids...), "", nil)
+		var cl refctl.CharList
+		if err != nil || m.Status != 200 || json.Unmarshal(m.Body, &cl) != nil || len(cl.Characteristics) != len(ts) {
+			r.Violation("getter:read-fails", fmt.Sprintf("GET /characteristics of four characteristics with read callbacks fails: %v", err), nil)
+			return
+		}
+		r.Eval()
+		r.Count("getter_rounds", 1)
+		for i, t := range ts {
+			got := "<none>"
+			if cl.Characteristics[i].Value != nil {
+				got = string(*cl.Characteristics[i].Value)
+			}
+			mu.Lock()
+			want := t.want()
+			mu.Unlock()
+			if !sameNumber(got, want) {
+				r.Violation("getter:value-not-the-callbacks:"+strings.Fields(t.what)[0], fmt.Sprintf("%s: the application's read callback returns %s, the controller reads %s", t.what, want, got),
+					map[string]interface{}{"round": round, "characteristic": t.what, "callback_returns": want, "controller_reads": got})
+			} else {
+				r.Nontrivial(fmt.Sprintf("getter/%d/%d", i, round))
+			}
+		}
+		if round%5 == 0 {
+			m2, err := c.Do("GET", "/accessories", "", nil)
+			if err != nil || m2.Status != 200 {
+				r.Violation("getter:read-fails", fmt.Sprintf("GET /accessories fails: %v", err), nil)
+				return
+			}
+			db, perr := refctl.ParseAttrDB(m2.Body)
+			if perr != nil {
+				continue // reported by the main phase
+			}
+			for _, t := range ts {
+				for _, ac := range db.Accessories {
+					if ac.AID != t.aid {
+						continue
+					}
+					for _, s := range ac.Services {
+						for _, ch := range s.Characteristics {
+							mu.Lock()
+							want := t.want()
+							mu.Unlock()
+							if ch.IID == t.iid && !sameNumber(string(ch.Value), want) {
+								r.Violation("getter:accessories-differs:"+strings.Fields(t.what)[0], fmt.Sprintf("%s: the controller has just read %s through /characteristics, /accessories shows %s", t.what, want, string(ch.Value)), nil)
+							}
+						}
+					}
+				}
+			}
+		}
+	}
+	r.Floor("getter_rounds", int(r.Counter("getter_rounds")), rounds*9/10)
+}
+
+// sameNumber compares two JSON scalars (numbers by value: 20 and 20.0 are the same reading).
+func sameNumber(a, b string) bool {
+	if a == b {
+		return true
+	}
+	var x, y float64
+	if json.Unmarshal([]byte(a), &x) == nil && json.Unmarshal([]byte(b), &y) == nil {
+		return x == y
+	}
+	return false
 }
